@@ -122,6 +122,12 @@ def generate(ctx):
         if acc is not None:
             yield "encode", dict(gens.graph_case(acc, k), start=int(rng.choice(G.live_vertices(acc))), bits=gens.message(rng, 8, "long")[0],
                                  fast=False, table=None, fam="long", dtype="int64")
+    if ctx.shard % 4 == 1:
+        # a walk that carries more than 2100 bits, decoded under the int<->str trap (the number has more than 640 digits)
+        k = rng.choice([1, 2])
+        acc = G.complete(k)
+        s = G.random_walk(acc, 0, rng.randint(1100, 1300), rng)
+        yield "decode_walk", dict(gens.graph_case(acc, k), start=0, strand=s, fast=False, table=None, slack=rng.choice([0, 1, 4]), fam="long")
     for _ in range(ctx.pick(40, 300)):
         k = rng.choice([1, 2, 3])
         acc = gens.arc_graph(rng, k)
@@ -305,6 +311,8 @@ def check_decode_walk(ctx, case):
     if guard.changed():
         ctx.fail("argument-modified", "decode changed its %s; k=%d start=%d graph=%s table=%s" % (guard.changed(), k, start, case["arcs"], case["table"]))
     ctx.cls("decode|width type %s" % type(width).__name__)
+    if case.get("fam") == "long":
+        ctx.cls("decode|walk of more than 2100 bits under the int<->str trap")
     if contracts.EVALS["decode.ensure.bits_are_reference"] == before and out.kind == "ok":
         ctx.fail("contract-bypassed", "decode returned without evaluating its postcondition")
     if not _report(ctx, out, "decode"):
@@ -349,7 +357,7 @@ def floors(agg, tier):
         out.append("decode contract evaluated %d times" % m.get("contract-evaluations:decode.ensure.bits_are_reference", 0))
     for name, need in (("encode|nontrivial", 500), ("decode|nontrivial", 300), ("encode|radix3|normal", 100),
                        ("encode|radix4|fast", 100), ("encode|radix2|fast", 100), ("encode|radix1|normal", 100),
-                       ("decode|trailing zero digit", 50), ("decode|fast|table1", 50), ("decode|width type uint16", 100), ("start type|uint8", 200), ("start type|uint16", 200),
+                       ("decode|trailing zero digit", 50), ("decode|fast|table1", 50), ("decode|width type uint16", 100), ("start type|uint8", 200), ("decode|walk of more than 2100 bits under the int<->str trap", 2), ("start type|uint16", 200),
                        ("edit sequences (same accessor object overwritten in place)", 100)):
         if c.get(name, 0) < need:
             out.append("%s observed %d < %d" % (name, c.get(name, 0), need))
